@@ -1,5 +1,10 @@
 package server
 
+import (
+	"context"
+	"net/http"
+)
+
 // ---- C18: concurrent commands, probes and traffic never corrupt the proxy (T2) ----
 
 func vCommand(router *Router, which int, topts TargetOptions, tag string) {
@@ -78,25 +83,34 @@ func HarnessCmdMix() {
 	if f := vParam("force2", -1); f >= 0 {
 		vAssume(c2 == f)
 	}
-	withCookie := vChoose("cookie", 2) == 1
+	// the request: plain, carrying the rollout cookie, or upgraded (hijacked connection that stays open until a drain
+	// or the end of the run)
+	kind := vChoose("request_kind", vParam("request_kinds", 3))
+	withCookie := kind == 1
+	upgraded := kind == 2
 	done := 0
 	reqDone := false
-	vProxyPlans[0] = &vProxyPlan{service: 0}
+	vProxyPlans[0] = &vProxyPlan{service: 0, hijack: upgraded}
 	go func() { vCommand(router, c1, topts, "1"); done++ }()
 	go func() { vCommand(router, c2, topts, "2"); done++ }()
 	go func() {
 		vDaemon()
 		req := vPlainRequest("/")
 		req.Host = "h"
+		req = req.WithContext(context.WithValue(context.Background(), vReqKey, 0))
 		if withCookie {
 			req.Header["Cookie"] = []string{RolloutCookieName + "=x"}
 		}
 		w := vNewRecorder()
-		root.ServeHTTP(w, req)
+		var rw http.ResponseWriter = w
+		if upgraded {
+			rw = vHijackRecorder{w}
+		}
+		root.ServeHTTP(rw, req)
 		reqDone = true
 	}()
 	// both commands have returned and the request has been answered (or is held by a paused service)
-	vBlockUntil(func() bool { return done == 2 && (reqDone || vAtGate > 0) })
+	vBlockUntil(func() bool { return done == 2 && (reqDone || vAtGate > 0 || vOpenEnded[0]) })
 	vCover(true, "mix explored")
 }
 
